@@ -9,9 +9,11 @@ import (
 
 	"github.com/go-logr/logr"
 	v1 "k8s.io/api/core/v1"
+	apierrors "k8s.io/apimachinery/pkg/api/errors"
 	metav1 "k8s.io/apimachinery/pkg/apis/meta/v1"
 	"k8s.io/apimachinery/pkg/apis/meta/v1/unstructured"
 	"k8s.io/apimachinery/pkg/runtime"
+	"k8s.io/apimachinery/pkg/runtime/schema"
 	"k8s.io/apimachinery/pkg/types"
 	ctrl "sigs.k8s.io/controller-runtime"
 	"sigs.k8s.io/controller-runtime/pkg/client"
@@ -60,6 +62,10 @@ type world struct {
 	calls  []Call
 	ctx    context.Context
 	reads  int
+	// failAt: 1-based index (over all mutating calls of this world) of the call that is rejected once with a
+	// server-timeout error and not applied (0 = no fault); failed records which call it was
+	failAt int
+	failed *Call
 }
 
 func toUnstructured(o Obj) (*unstructured.Unstructured, error) {
@@ -105,12 +111,18 @@ func newWorld(sc *Scenario) (*world, error) {
 		objs = append(objs, u)
 	}
 	w.raw = crfake.NewClientBuilder().WithScheme(w.scheme).WithStatusSubresource(&v2alpha2.PodGroup{}).WithObjects(objs...).Build()
-	rec := func(verb string, o runtime.Object) {
+	rec := func(verb string, o runtime.Object) error {
 		name := ""
 		if a, ok := o.(metav1.Object); ok {
 			name = a.GetName()
 		}
 		w.calls = append(w.calls, Call{Verb: verb, Kind: kindOf(w.scheme, o), Name: name})
+		if w.failAt > 0 && len(w.calls) == w.failAt {
+			c := w.calls[len(w.calls)-1]
+			w.failed = &c
+			return apierrors.NewServerTimeout(schema.GroupResource{Resource: strings.ToLower(c.Kind)}, verb, 1)
+		}
+		return nil
 	}
 	w.sut = interceptor.NewClient(w.raw, interceptor.Funcs{
 		Get: func(ctx context.Context, c client.WithWatch, key client.ObjectKey, obj client.Object, opts ...client.GetOption) error {
@@ -135,23 +147,33 @@ func newWorld(sc *Scenario) (*world, error) {
 			return c.List(ctx, list, opts...)
 		},
 		Create: func(ctx context.Context, c client.WithWatch, obj client.Object, opts ...client.CreateOption) error {
-			rec("create", obj)
+			if err := rec("create", obj); err != nil {
+				return err
+			}
 			return c.Create(ctx, obj, opts...)
 		},
 		Update: func(ctx context.Context, c client.WithWatch, obj client.Object, opts ...client.UpdateOption) error {
-			rec("update", obj)
+			if err := rec("update", obj); err != nil {
+				return err
+			}
 			return c.Update(ctx, obj, opts...)
 		},
 		Patch: func(ctx context.Context, c client.WithWatch, obj client.Object, p client.Patch, opts ...client.PatchOption) error {
-			rec("patch", obj)
+			if err := rec("patch", obj); err != nil {
+				return err
+			}
 			return c.Patch(ctx, obj, p, opts...)
 		},
 		Delete: func(ctx context.Context, c client.WithWatch, obj client.Object, opts ...client.DeleteOption) error {
-			rec("delete", obj)
+			if err := rec("delete", obj); err != nil {
+				return err
+			}
 			return c.Delete(ctx, obj, opts...)
 		},
 		DeleteAllOf: func(ctx context.Context, c client.WithWatch, obj client.Object, opts ...client.DeleteAllOfOption) error {
-			rec("deleteallof", obj)
+			if err := rec("deleteallof", obj); err != nil {
+				return err
+			}
 			return c.DeleteAllOf(ctx, obj, opts...)
 		},
 		Apply: func(ctx context.Context, c client.WithWatch, obj runtime.ApplyConfiguration, opts ...client.ApplyOption) error {
@@ -159,15 +181,21 @@ func newWorld(sc *Scenario) (*world, error) {
 			return c.Apply(ctx, obj, opts...)
 		},
 		SubResourceCreate: func(ctx context.Context, c client.Client, sub string, obj client.Object, subObj client.Object, opts ...client.SubResourceCreateOption) error {
-			rec(sub+"-create", obj)
+			if err := rec(sub+"-create", obj); err != nil {
+				return err
+			}
 			return c.SubResource(sub).Create(ctx, obj, subObj, opts...)
 		},
 		SubResourceUpdate: func(ctx context.Context, c client.Client, sub string, obj client.Object, opts ...client.SubResourceUpdateOption) error {
-			rec(sub+"-update", obj)
+			if err := rec(sub+"-update", obj); err != nil {
+				return err
+			}
 			return c.SubResource(sub).Update(ctx, obj, opts...)
 		},
 		SubResourcePatch: func(ctx context.Context, c client.Client, sub string, obj client.Object, p client.Patch, opts ...client.SubResourcePatchOption) error {
-			rec(sub+"-patch", obj)
+			if err := rec(sub+"-patch", obj); err != nil {
+				return err
+			}
 			return c.SubResource(sub).Patch(ctx, obj, p, opts...)
 		},
 	})
@@ -191,7 +219,11 @@ func newWorld(sc *Scenario) (*world, error) {
 
 // reconcile runs the real Reconcile for sibling pod i and returns the mutating calls it made and its error.
 func (w *world) reconcile(i int) (calls []Call, errMsg string) {
-	name := nameOf(w.sc.Pods[i])
+	return w.reconcileName(nameOf(w.sc.Pods[i]))
+}
+
+// reconcileName runs the real Reconcile for the pod of that name.
+func (w *world) reconcileName(name string) (calls []Call, errMsg string) {
 	before := len(w.calls)
 	func() {
 		defer func() {
